@@ -153,20 +153,22 @@ pub fn mod_switch_2n(n: usize, res: &mut [i64], lwe: &LWE<&[u8]>, rot_dir: LookU
             *x = div_round_by_pow2(x, diff);
         })
     } else {
-        let rem: usize = base2k - (log2n % base2k);
-        let size: usize = log2n.div_ceil(base2k);
+        // The log2n - 1 bits of the modulus span several limbs: accumulates the limbs holding
+        // them and the rounding bit (with the sign of the rotation direction), then rounds once.
+        let negate: bool = matches!(rot_dir, LookUpTableRotationDirection::Left);
+        let bits: usize = log2n - 1; // additional -1 because we map to [-N/2, N/2) instead of [0, N)
+        let size: usize = (bits + 1).div_ceil(base2k).min(lwe.size());
         (1..size).for_each(|i| {
-            if i == size - 1 && rem != base2k {
-                let k_rem: usize = base2k - rem;
-                izip!(lwe.data().at(0, i).iter(), res.iter_mut()).for_each(|(x, y)| {
-                    *y = (*y << k_rem) + (x >> rem);
-                });
-            } else {
-                izip!(lwe.data().at(0, i).iter(), res.iter_mut()).for_each(|(x, y)| {
-                    *y = (*y << base2k) + x;
-                });
-            }
-        })
+            izip!(lwe.data().at(0, i).iter(), res.iter_mut()).for_each(|(x, y)| {
+                *y = (*y << base2k) + if negate { -*x } else { *x };
+            });
+        });
+        let acc_bits: usize = size * base2k;
+        if acc_bits > bits {
+            res.iter_mut().for_each(|x| *x = div_round_by_pow2(x, acc_bits - bits));
+        } else {
+            res.iter_mut().for_each(|x| *x <<= bits - acc_bits);
+        }
     }
 }
 
